@@ -496,6 +496,12 @@ pub fn walk_str(w: &WalkOut) -> Vec<(String, Rtype, u32, Vec<String>)> {
 
 /// Build the primary and evolve it; checks the diff law on the way.
 pub async fn build_primary() -> Option<Primary> {
+    build_primary_with(0).await
+}
+
+/// `bulk`: that many extra RRsets of about 1000 octets each, present in
+/// every version (for transfers that need more than one 64 KiB message).
+pub async fn build_primary_with(bulk: usize) -> Option<Primary> {
     let all = universe_names();
     let n_names = 3 + sim::draw("focus.n_names", 6) as usize;
     let mut pool = all.clone();
@@ -522,6 +528,18 @@ pub async fn build_primary() -> Option<Primary> {
     for _ in 0..sim::draw("init.n", 12) {
         let r = gen_rec(&names);
         apply_add(&mut c, &r);
+    }
+    for i in 0..bulk {
+        let chunk = |j: usize| format!("\"{}\"", format!("b{}c{}-", i, j).repeat(40).chars().take(250).collect::<String>());
+        apply_add(
+            &mut c,
+            &RecSpec {
+                owner: format!("bulk{}.{}", i, APEX),
+                rtype: Rtype::TXT,
+                ttl: 300,
+                rdata: format!("{} {} {} {}", chunk(0), chunk(1), chunk(2), chunk(3)),
+            },
+        );
     }
     contents.push(c.clone());
     let primary = match build_direct(&c) {
